@@ -8,6 +8,8 @@ copy, to look for false alarms.
   refactor_variants.py both
   refactor_variants.py params    - rename parameters that are never passed by keyword
   refactor_variants.py logging   - add _LOGGER.debug(...) at the top of every function and loop body
+  refactor_variants.py fstrings  - turn simple str.format calls into f-strings
+  refactor_variants.py reorder   - sort runs of consecutive function definitions by name
   refactor_variants.py temps     - bind return values and comparison tests to
                                    temporaries first
 
@@ -218,6 +220,66 @@ class Logging(ast.NodeTransformer):
         return node
 
 
+class FStrings(ast.NodeTransformer):
+    """'..{0:3s}..'.format(a, b)  ->  f'..{a:3s}..' when every field is a plain
+    positional index without conversion and every argument a simple expression."""
+
+    def visit_Call(self, node):
+        self.generic_visit(node)
+        import string
+        if not (isinstance(node.func, ast.Attribute) and node.func.attr == 'format'
+                and isinstance(node.func.value, ast.Constant) and isinstance(node.func.value.value, str)
+                and not node.keywords and node.args
+                and all(isinstance(a, (ast.Name, ast.Attribute, ast.Subscript, ast.Constant)) for a in node.args)):
+            return node
+        parts = []
+        try:
+            parsed = list(string.Formatter().parse(node.func.value.value))
+        except ValueError:
+            return node
+        auto = 0
+        for lit, field, spec, conv in parsed:
+            if lit:
+                parts.append(ast.Constant(lit))
+            if field is None:
+                continue
+            if conv or (spec and ('{' in spec)):
+                return node
+            if field == '':
+                idx = auto
+                auto += 1
+            elif field.isdigit():
+                idx = int(field)
+            else:
+                return node
+            if idx >= len(node.args):
+                return node
+            fs = ast.JoinedStr(values=[ast.Constant(spec)]) if spec else None
+            parts.append(ast.FormattedValue(value=node.args[idx], conversion=-1, format_spec=fs))
+        return ast.copy_location(ast.JoinedStr(values=parts), node)
+
+
+def reorder_functions(tree):
+    """Sort every run of consecutive function definitions (module level and
+    class bodies) by name: definition order of functions does not matter."""
+    def fix(body):
+        out, run = [], []
+        for st in body:
+            if isinstance(st, (ast.FunctionDef, ast.AsyncFunctionDef)) and not st.decorator_list:
+                run.append(st)
+            else:
+                out.extend(sorted(run, key=lambda f: f.name))
+                run = []
+                out.append(st)
+        out.extend(sorted(run, key=lambda f: f.name))
+        return out
+    tree.body = fix(tree.body)
+    for node in ast.walk(tree):
+        if isinstance(node, ast.ClassDef):
+            node.body = fix(node.body)
+    return tree
+
+
 def transform(path, mode):
     with open(path, encoding='utf-8') as handle:
         src = handle.read()
@@ -229,6 +291,11 @@ def transform(path, mode):
     if 'logging' in mode and '_LOGGER' in src and 'getLogger' in src:
         tree = Logging().visit(tree)
         ast.fix_missing_locations(tree)
+    if 'fstrings' in mode:
+        tree = FStrings().visit(tree)
+        ast.fix_missing_locations(tree)
+    if 'reorder' in mode:
+        tree = reorder_functions(tree)
     if 'temps' in mode:
         tree = Temps().visit(tree)
         ast.fix_missing_locations(tree)
